@@ -23,13 +23,16 @@ OPERATORS = {'add': operator.add, 'subtract': operator.sub, 'multiply': operator
 INEXACT = {'sqrt', 'norm', 'inv', 'det', 'interp', 'reciprocal'}
 # operations that depend discontinuously on their (float) operands
 DISCONT = {'floor_divide', 'mod', 'divmod', 'greater', 'less', 'equal', 'not_equal', 'greater_equal', 'less_equal', 'sign', 'searchsorted',
-           'logical_and', 'logical_or', 'logical_xor', 'logical_not', 'any', 'all', 'choose', 'take', 'getitem', 'minimum', 'maximum', 'max', 'min', 'interp'}
+           'logical_and', 'logical_or', 'logical_xor', 'logical_not', 'any', 'all', 'choose', 'take', 'getitem'}
+# for these only the listed operand positions (0-based) are discontinuous (the index operands)
+DISCONT_OPERANDS = {'choose': (0,), 'take': (1,), 'getitem': (1, 2, 3)}
 LETTERS = ' ijklmn'
 
 
 def kind_of(dtype):
-    if dtype in (bool, int, float, complex):
-        return {bool: 'b', int: 'i', float: 'f', complex: 'c'}[dtype]
+    for t, k in ((bool, 'b'), (int, 'i'), (float, 'f'), (complex, 'c')):
+        if dtype is t:
+            return k
     k = numpy.dtype(dtype).kind
     return {'b': 'b', 'i': 'i', 'u': 'i', 'f': 'f', 'c': 'c'}.get(k, k)
 
